@@ -128,10 +128,10 @@ Proof. split; [split; vm_compute; intros; congruence | vm_compute; reflexivity].
 (* the activity test the theorems above are about is the code: momentumStore.IsSporkActive (chain/momentum/embedded.go)
    as translated by go2coq on every run, loop included; frontier momentum and the defined sporks are its inputs *)
 Theorem C17_is_active_is_the_source : forall h l id,
-  ZV.gen.Pure.IsSporkActive 0 h 0 id (map (fun s => (sp_activated s, sp_enf s, sp_id s)) l) =
+  ZV.gen.PureSpork.IsSporkActive 0 h 0 id (map (fun s => (sp_activated s, sp_enf s, sp_id s)) l) =
   (is_active (mkMstore h l) id, 0).
 Proof. exact is_active_is_source. Qed.
 Theorem C17_is_active_errors_propagate : forall e1 h e2 id items,
-  e1 <> 0 \/ (h <> 1 /\ e2 <> 0) -> exists e, e <> 0 /\ ZV.gen.Pure.IsSporkActive e1 h e2 id items = (false, e).
+  e1 <> 0 \/ (h <> 1 /\ e2 <> 0) -> exists e, e <> 0 /\ ZV.gen.PureSpork.IsSporkActive e1 h e2 id items = (false, e).
 Proof. exact is_active_errors_propagate. Qed.
 
